@@ -9,7 +9,7 @@
   assignment satisfying the emitted items the output bits encode the sum.
   `vals_sat_iff_holds` ties the item semantics to the emitted clause lists.
 -/
-import SPProofs.Card.Lemmas
+import SPProofs.Card.Adders
 
 namespace SPModel.C12
 open SPModel Builder
@@ -18,7 +18,7 @@ open SPModel Builder
     when every item holds. -/
 theorem vals_sat_iff_holds (n : Nat) (b : Builder) (h : Ext (fromFresh n) b) (τ : Assign) :
     cnfSat τ b.vals = true ↔ b.Holds τ := by
-  sorry
+  exact vals_sat_iff h τ
 
 /-- No other freedom: the gate items added between `b` and `b'` have, over any
     assignment of the variables of `b`, exactly one satisfying extension. -/
@@ -27,7 +27,11 @@ theorem ext_exists_unique (b b' : Builder) (h : Ext b b') (σ : Assign) :
       (∀ it ∈ newItems b b', it.out ≠ none → it.holds τ = true) ∧
       ∀ τ' : Assign, Agree b.nvars σ τ' →
         (∀ it ∈ newItems b b', it.out ≠ none → it.holds τ' = true) → Agree b'.nvars τ τ' := by
-  sorry
+  obtain ⟨new, e, c⟩ := h
+  rw [newItems_eq e]
+  obtain ⟨τ, ha, hh, hu⟩ := c.exists_unique σ
+  exact ⟨τ, ha, fun it hm => hh it (List.mem_reverse.2 hm),
+    fun τ' ha' hh' => hu τ' ha' (fun it hm => hh' it (List.mem_reverse.1 hm))⟩
 
 theorem halfAdder_spec (b : Builder) (x y : Int) (hx : LitOK b.nvars x) (hy : LitOK b.nvars y) :
     Ext b (b.halfAdder x y).2 ∧
@@ -36,7 +40,10 @@ theorem halfAdder_spec (b : Builder) (x y : Int) (hx : LitOK b.nvars x) (hy : Li
     ∀ τ, (b.halfAdder x y).2.Holds τ →
       2 * (litVal τ (b.halfAdder x y).1.1).toNat + (litVal τ (b.halfAdder x y).1.2).toNat
         = (litVal τ x).toNat + (litVal τ y).toNat := by
-  sorry
+  obtain ⟨g, hn, hc, hs, hv⟩ := halfAdder_full b x y hx hy
+  refine ⟨g.ext, ?_, ?_, hv⟩
+  · rw [hc, hn]; exact LitOK.nat (by omega) (by omega)
+  · rw [hs, hn]; exact LitOK.nat (by omega) (by omega)
 
 theorem fullAdder_spec (b : Builder) (x y c : Int)
     (hx : LitOK b.nvars x) (hy : LitOK b.nvars y) (hc : LitOK b.nvars c) :
@@ -46,7 +53,10 @@ theorem fullAdder_spec (b : Builder) (x y c : Int)
     ∀ τ, (b.fullAdder x y (some c)).2.Holds τ →
       2 * (litVal τ (b.fullAdder x y (some c)).1.1).toNat + (litVal τ (b.fullAdder x y (some c)).1.2).toNat
         = (litVal τ x).toNat + (litVal τ y).toNat + (litVal τ c).toNat := by
-  sorry
+  obtain ⟨g, hn, hc', hs, hv⟩ := fullAdder_full b x y c hx hy hc
+  refine ⟨g.ext, ?_, ?_, hv⟩
+  · rw [hc', hn]; exact LitOK.nat (by omega) (by omega)
+  · rw [hs, hn]; exact LitOK.nat (by omega) (by omega)
 
 theorem saturateAdder_spec (b : Builder) (x y : Int) (cin : Option Int)
     (hx : LitOK b.nvars x) (hy : LitOK b.nvars y) (hc : ∀ c, cin = some c → LitOK b.nvars c) :
@@ -55,7 +65,12 @@ theorem saturateAdder_spec (b : Builder) (x y : Int) (cin : Option Int)
     ∀ τ, (b.saturateAdder x y cin).2.Holds τ →
       litVal τ (b.saturateAdder x y cin).1
         = (litVal τ x || litVal τ y || (match cin with | some c => litVal τ c | none => false)) := by
-  sorry
+  obtain ⟨g, hn, hs, hv⟩ := saturateAdder_full b x y cin hx hy hc
+  refine ⟨g.ext, ?_, ?_⟩
+  · rw [hs, hn]; exact LitOK.nat (by omega) (by omega)
+  · intro τ hτ
+    rw [hv τ hτ]
+    cases cin <;> rfl
 
 /-- `ripple_carry` on operands of equal, non-zero width: carry and sum bits
     (most significant first) encode the sum of the operands. -/
@@ -65,7 +80,8 @@ theorem rippleCarry_spec (b : Builder) (xs ys : List Int)
     ∃ c ss b', b.rippleCarry xs ys = ((some c, ss), b') ∧ Ext b b' ∧
       ss.length = xs.length ∧ (∀ l ∈ c :: ss, LitOK b'.nvars l) ∧
       ∀ τ, b'.Holds τ → bitsVal τ (c :: ss.reverse) = bitsVal τ xs + bitsVal τ ys := by
-  sorry
+  obtain ⟨c, ss, b', heq, g, h1, h2, h3⟩ := rippleCarry_full b xs ys hx hy hlen hpos
+  exact ⟨c, ss, b', heq, g.ext, h1, h2, h3⟩
 
 /-- `ripple_saturate` on operands of equal width `w ≤ saturate_at`: below the
     saturation width the output is the exact `w+1`-bit sum; at the saturation
@@ -79,7 +95,8 @@ theorem rippleSaturate_spec (b : Builder) (xs ys : List Int) (sat : Nat)
         (xs.length < sat → bitsVal τ out = bitsVal τ xs + bitsVal τ ys) ∧
         (xs.length = sat → ∀ cx cy, bitsVal τ xs = satRepr sat cx → bitsVal τ ys = satRepr sat cy →
           bitsVal τ out = satRepr sat (cx + cy)) := by
-  sorry
+  obtain ⟨out, b', heq, g, h1, h2, h3⟩ := rippleSaturate_full b xs ys sat hx hy hlen hpos hsat
+  exact ⟨out, b', heq, g.ext, h1, h2, h3⟩
 
 /-- `pop_count`: the output (most significant first) encodes the number of true
     input literals — exactly when `saturate_at = 0` or the output is narrower
